@@ -33,12 +33,12 @@ def plan(tier, seed):
         S += [{"kind": "pairs", "part": i, "parts": 6, "solver_every": 40} for i in range(6)]
         S += [{"kind": "tri", "stream": i, "n": 500, "solver_every": 40} for i in range(4)]
         S += [{"kind": "rand", "stream": i, "n": 400, "solver_every": 40} for i in range(4)]
-        S += [{"kind": "literals"}]
+        S += [{"kind": "literals"}, {"kind": "roundtrip"}]
     else:
         S += [{"kind": "pairs", "part": i, "parts": 16, "solver_every": 8} for i in range(16)]
         S += [{"kind": "tri", "stream": i, "n": 4000, "solver_every": 10} for i in range(8)]
         S += [{"kind": "rand", "stream": i, "n": 3000, "solver_every": 10} for i in range(8)]
-        S += [{"kind": "literals"}]
+        S += [{"kind": "literals"}, {"kind": "roundtrip"}]
     return S
 
 
@@ -48,7 +48,18 @@ def _cases(spec, rng):
     P = sb.pool()
     IDX = sb.index_pool()
     k = spec["kind"]
+    if k == "roundtrip":
+        # number <-> string conversions composed, on literals and (judge: always solved) on a variable standing for them
+        for a in P:
+            if len(a[1]) > 100:
+                continue
+            yield ["inttostr", ["stoint", a]]
+            yield ["stoint", ["inttostr", ["stoint", a]]]
+            yield ["seq", ["inttostr", ["stoint", a]], a]
+            yield ["slen", ["inttostr", ["stoint", a]]]
+        return
     if k == "pairs":
+        P = [p for p in P if len(p[1]) <= 100]
         pairs = list(itertools.product(P, P))
         for n, (a, b) in enumerate(pairs):
             if n % spec["parts"] != spec["part"]:
@@ -128,6 +139,9 @@ def rand_str(rng, depth):
         return ["ssubstr", ["bvv", rng.choice(sb.index_pool()), 64], ["bvv", rng.choice(sb.index_pool()), 64], rand_str(rng, depth - 1)]
     if k == 2:
         return ["sreplace", rand_str(rng, depth - 1), rand_str(rng, depth - 1), rand_str(rng, depth - 1)]
+    if rng.random() < 0.5:
+        # a string turned into a number and back (the identity only on canonical numerals below 2**64)
+        return ["inttostr", ["stoint", rand_str(rng, depth - 1)]]
     return ["inttostr", ["bvv", rng.choice(sb.index_pool()), 64]]
 
 
@@ -141,7 +155,7 @@ def rand_tree(rng, depth):
     if k == 1:
         return ["slen", a]
     if k == 2:
-        return ["stoint", a]
+        return ["stoint", a] if rng.random() < 0.7 else ["stoint", ["inttostr", ["stoint", a]]]
     if k == 3:
         return ["sindexof", a, b, ["bvv", rng.choice(sb.index_pool()), 64]]
     if k == 4:
@@ -191,7 +205,7 @@ def run_shard(spec, res):
     n = 0
     for d in _cases(spec, rng):
         n += 1
-        judge(d, res, rng, tmo, run_solver=(n % spec.get("solver_every", 40) == 0))
+        judge(d, res, rng, tmo, run_solver=(spec["kind"] == "roundtrip" or n % spec.get("solver_every", 40) == 0))
 
 
 def _pyval(ast):
